@@ -114,6 +114,49 @@ theorem gate_verdict_complete (L : Lang) (diffs : List (Nat × Nat)) (t : Tree) 
             · simp [he]
         · simp
 
+/-- `refusal_reasons_sound`: every member of `refusalReasons` is a test that really fails for the
+candidate, the gate's verdict is a refusal exactly when the list is non-empty, and then it is the
+FIRST member.  (The replay accepts a logged reason that is any member: a harmless reordering of
+the independent tests changes the logged reason, never the decision.) -/
+theorem refusal_reasons_sound (L : Lang) (diffs : List (Nat × Nat)) (t : Tree) (off state : Nat) (lineDiff : Bool) :
+    (Verdict.hasChanges ∈ refusalReasons diffs t off lineDiff ↔ t.data.hasChanges = true) ∧
+    (Verdict.isError ∈ refusalReasons diffs t off lineDiff ↔ t.data.symbol = symError) ∧
+    (Verdict.isMissing ∈ refusalReasons diffs t off lineDiff ↔ t.data.isMissing = true) ∧
+    (Verdict.isFragile ∈ refusalReasons diffs t off lineDiff ↔ (t.data.fragileLeft || t.data.fragileRight) = true) ∧
+    (Verdict.rangeDiff ∈ refusalReasons diffs t off lineDiff ↔
+      (rangeIntersects diffs off (diffSpanEnd t off) || lineDiff) = true) ∧
+    (refusalReasons diffs t off lineDiff = [] →
+      reuseGate L diffs t off off state true lineDiff = .reuse ∨
+      reuseGate L diffs t off off state true lineDiff = .firstLeaf) ∧
+    (∀ r rest, refusalReasons diffs t off lineDiff = r :: rest →
+      reuseGate L diffs t off off state true lineDiff = r) := by
+  unfold refusalReasons reuseGate
+  refine ⟨?_, ?_, ?_, ?_, ?_, ?_, ?_⟩
+  · by_cases h1 : t.data.hasChanges = true <;> by_cases h2 : t.data.symbol = symError <;>
+      by_cases h3 : t.data.isMissing = true <;> by_cases h4 : (t.data.fragileLeft || t.data.fragileRight) = true <;>
+      by_cases h5 : (rangeIntersects diffs off (diffSpanEnd t off) || lineDiff) = true <;> simp_all
+  · by_cases h1 : t.data.hasChanges = true <;> by_cases h2 : t.data.symbol = symError <;>
+      by_cases h3 : t.data.isMissing = true <;> by_cases h4 : (t.data.fragileLeft || t.data.fragileRight) = true <;>
+      by_cases h5 : (rangeIntersects diffs off (diffSpanEnd t off) || lineDiff) = true <;> simp_all
+  · by_cases h1 : t.data.hasChanges = true <;> by_cases h2 : t.data.symbol = symError <;>
+      by_cases h3 : t.data.isMissing = true <;> by_cases h4 : (t.data.fragileLeft || t.data.fragileRight) = true <;>
+      by_cases h5 : (rangeIntersects diffs off (diffSpanEnd t off) || lineDiff) = true <;> simp_all
+  · by_cases h1 : t.data.hasChanges = true <;> by_cases h2 : t.data.symbol = symError <;>
+      by_cases h3 : t.data.isMissing = true <;> by_cases h4 : (t.data.fragileLeft || t.data.fragileRight) = true <;>
+      by_cases h5 : (rangeIntersects diffs off (diffSpanEnd t off) || lineDiff) = true <;> simp_all
+  · by_cases h1 : t.data.hasChanges = true <;> by_cases h2 : t.data.symbol = symError <;>
+      by_cases h3 : t.data.isMissing = true <;> by_cases h4 : (t.data.fragileLeft || t.data.fragileRight) = true <;>
+      by_cases h5 : (rangeIntersects diffs off (diffSpanEnd t off) || lineDiff) = true <;> simp_all
+  · by_cases h1 : t.data.hasChanges = true <;> by_cases h2 : t.data.symbol = symError <;>
+      by_cases h3 : t.data.isMissing = true <;> by_cases h4 : (t.data.fragileLeft || t.data.fragileRight) = true <;>
+      by_cases h5 : (rangeIntersects diffs off (diffSpanEnd t off) || lineDiff) = true <;> simp_all <;>
+      (by_cases h6 : canReuseFirstLeaf L state t (L.tableEntry state (leafSymbol t)) = true <;> simp_all)
+  · intro r rest
+    by_cases h1 : t.data.hasChanges = true <;> by_cases h2 : t.data.symbol = symError <;>
+      by_cases h3 : t.data.isMissing = true <;> by_cases h4 : (t.data.fragileLeft || t.data.fragileRight) = true <;>
+      by_cases h5 : (rangeIntersects diffs off (diffSpanEnd t off) || lineDiff) = true <;> simp_all <;>
+      (try (intros; simp_all)) <;> (try (rcases h5 with h5 | h5 <;> simp_all))
+
 /-! ## `ts_parser__breakdown_lookahead` -/
 
 theorem descend_offset (it it' : Iter) (h : it.descend = some it') : it'.byteOffset = it.byteOffset := by
